@@ -15,7 +15,7 @@ import Aegean.Spec.C15
                                                        -> ok | violated <clause> <r> <c>
 
     HDR = naxis1 naxis2 crpix1 crpix2 cdelt1 cd11 cdelt2 cd22      (the last four: float or `-`)
-    BN  = `nobn`  |  `bn cfac npx1 npx2 rpx1 rpx2`
+    BN  = (`nobn`  |  `bn cfac npx1 npx2 rpx1 rpx2`)  `other` n key₁ val₁ … keyₙ valₙ     (raw cards, never interpreted)
 -/
 namespace Drv.C15
 open Drv Aegean.Model.C15
@@ -47,19 +47,38 @@ def showBN : Option BN → String
   | none => "nobn"
   | some b => s!"bn {b.cfac} {b.npx1} {b.npx2} {b.rpx1} {b.rpx2}"
 
+def parseOther? : List String → Option (List (String × String) × List String)
+  | "other" :: n :: rest =>
+    match n.toNat? with
+    | some n =>
+      if rest.length < 2 * n then none else
+        let rec go : Nat → List String → List (String × String) → List (String × String) × List String
+          | 0, r, acc => (acc.reverse, r)
+          | k + 1, a :: b :: r, acc => go k r ((a, b) :: acc)
+          | _, r, acc => (acc.reverse, r)
+        some (go n rest [])
+    | none => none
+  | _ => none
+
+def showOther (l : List (String × String)) : String :=
+  l.foldl (fun s (k, v) => s ++ " " ++ k ++ " " ++ v) s!"other {l.length}"
+
 def parseHdr? : List String → Option (Hdr Float × List String)
   | n1 :: n2 :: c1 :: c2 :: d1 :: e1 :: d2 :: e2 :: rest =>
     match n1.toNat?, n2.toNat?, parseFloat? c1, parseFloat? c2,
           parseOptF? d1, parseOptF? e1, parseOptF? d2, parseOptF? e2, parseBN? rest with
     | some n1, some n2, some c1, some c2, some d1, some e1, some d2, some e2, some (bn, rest) =>
-      some ({ naxis1 := n1, naxis2 := n2, crpix1 := c1, crpix2 := c2,
-              cdelt1 := d1, cd11 := e1, cdelt2 := d2, cd22 := e2, bn := bn }, rest)
+      match parseOther? rest with
+      | some (other, rest) =>
+        some ({ naxis1 := n1, naxis2 := n2, crpix1 := c1, crpix2 := c2,
+                cdelt1 := d1, cd11 := e1, cdelt2 := d2, cd22 := e2, bn := bn, other := other }, rest)
+      | none => none
     | _, _, _, _, _, _, _, _, _ => none
   | _ => none
 
 def showHdr (h : Hdr Float) : String :=
   s!"{h.naxis1} {h.naxis2} {showFloat h.crpix1} {showFloat h.crpix2} " ++
-  s!"{showOptF h.cdelt1} {showOptF h.cd11} {showOptF h.cdelt2} {showOptF h.cd22} {showBN h.bn}"
+  s!"{showOptF h.cdelt1} {showOptF h.cd11} {showOptF h.cdelt2} {showOptF h.cd22} {showBN h.bn} {showOther h.other}"
 
 def mkImg (rows cols : Nat) (px : Array Float) : Img Float :=
   { rows := rows, cols := cols,
